@@ -338,6 +338,7 @@ func runC11(w *mon.W) {
 		return
 	}
 	c11NumericGrid(w)
+	c11KindGrid(w)
 	r := w.Rng
 	// ---------- (a) classical reading inside the resolving fragment
 	na := w.Share(w.Pick(40000, 1500000))
@@ -830,6 +831,83 @@ func c11NumericGrid(w *mon.W) {
 							w.Violate(fmt.Sprintf("a/grid/%s/%s/match=%v", kind, cls, m),
 								fmt.Sprintf("policy %s on %s: Match=%v PartialMatch=%v, classical reading says %v (form %s)", p, d, m, pm, want, []string{"constructors", "ipld"}[vi]),
 								map[string]any{"policy": p.String(), "data": d.String(), "match": m, "partial": pm, "model": want, "form": []string{"constructors", "ipld"}[vi]})
+						}
+					}
+				}
+			}
+		}
+	}
+}
+
+// c11KindGrid: == (plain and negated) over every ordered pair of values that print alike or
+// are easily confused but are different values: 1 / 1.0 / "1" / [1] / {"1":1}, true / "true",
+// bytes vs the string with the same bytes, a link vs its string form, null vs "null" vs an
+// empty list / map / string, nested containers differing in one deep leaf. Equal exactly when
+// the reference equality (same kind, same content; maps unordered) says so; ordering
+// statements never hold across kinds.
+func c11KindGrid(w *mon.W) {
+	lk := gen.LinkPool()[0]
+	deep := func(leaf ref.V) ref.V {
+		return ref.Map(ref.E("a", ref.List(ref.Int(1), ref.Map(ref.E("b", ref.List(ref.Str("x"), leaf))))), ref.E("c", ref.Null()))
+	}
+	vals := []ref.V{
+		ref.Int(1), ref.Float(1), ref.Str("1"), ref.List(ref.Int(1)), ref.Map(ref.E("1", ref.Int(1))), ref.Int(0), ref.Float(0), ref.Str("0"), ref.Bool(false), ref.Str("false"),
+		ref.Bool(true), ref.Str("true"), ref.Bytes([]byte("abc")), ref.Str("abc"), ref.Link(lk), ref.Str(lk.String()), ref.Bytes(lk.Bytes()),
+		ref.Null(), ref.Str("null"), ref.Str(""), ref.Bytes(nil), ref.List(), ref.Map(), ref.List(ref.Null()), ref.List(ref.List()),
+		deep(ref.Int(7)), deep(ref.Int(8)), deep(ref.Float(7)), ref.List(ref.Int(1), ref.Int(2)), ref.List(ref.Int(2), ref.Int(1)),
+		ref.Map(ref.E("a", ref.Int(1)), ref.E("b", ref.Int(2))), ref.Map(ref.E("b", ref.Int(2)), ref.E("a", ref.Int(1))), ref.Map(ref.E("a", ref.Int(1))),
+		ref.Int(-1), ref.Str("-1"), ref.Float(-1), ref.Str("é"), ref.Str("é"),
+	}
+	sel := ref.Sel{{Kind: ref.SField, Name: "v"}}
+	idx := 0
+	for _, lit := range vals {
+		for _, kind := range []string{"==", "<=", ">"} {
+			idx++
+			if !w.Mine(idx) {
+				continue
+			}
+			if kind != "==" && !lit.IsNumber() {
+				continue
+			}
+			for _, neg := range []bool{false, true} {
+				st := ref.Stmt{Kind: kind, Sel: sel, Val: lit}
+				if neg {
+					st = ref.Stmt{Kind: "not", Subs: []ref.Stmt{st}}
+				}
+				p := ref.Policy{st}
+				var pols []policy.Policy
+				if c, err := gen.BuildPolicy(p); err == nil {
+					pols = append(pols, c)
+				}
+				if ip, err := gen.BuildPolicyIPLD(p); err == nil {
+					pols = append(pols, ip)
+				}
+				for _, x := range vals {
+					d := ref.Map(ref.E("v", x))
+					t, _ := ref.EvalPolicy(p, d)
+					if t == ref.Unresolved {
+						continue
+					}
+					want := t == ref.True
+					for vi, pol := range pols {
+						var m, pm bool
+						if pi := mon.Guard(func() {
+							m, _ = pol.Match(d.Node())
+							pm, _ = pol.PartialMatch(d.Node())
+						}); pi != nil {
+							w.Count("match-panics(judged by C09)", 1)
+							continue
+						}
+						w.Eval(2)
+						w.Cover("kind-grid")
+						if lit.K != x.K {
+							w.Cover("kind-grid/cross-kind")
+						}
+						w.Distinct("kind-grid", kind, neg, lit.String(), x.String(), vi)
+						if m != want || pm != want {
+							w.Violate(fmt.Sprintf("a/kind-grid/%s/%s-vs-%s/match=%v", kind, lit.K, x.K, m),
+								fmt.Sprintf("policy %s on %s: Match=%v PartialMatch=%v, classical reading says %v", p, d, m, pm, want),
+								map[string]any{"policy": p.String(), "data": d.String(), "match": m, "partial": pm, "model": want, "form": vi})
 						}
 					}
 				}
